@@ -2,10 +2,11 @@
 use crate::engine::Property;
 
 pub mod c04;
+pub mod c05;
 pub mod c08;
 
 pub fn all() -> Vec<&'static dyn Property> {
-    vec![&c04::C04, &c04::C06, &c08::C08]
+    vec![&c04::C04, &c05::C05, &c04::C06, &c08::C08]
 }
 
 pub fn by_id(id: &str) -> Option<&'static dyn Property> {
